@@ -195,6 +195,55 @@ theorem apply1_error {f : Fn1} {ja : JVal} (h : apply1 f ja = .error) : f = .len
 theorem apply2_ne_error (f : Fn2) (a b : JVal) : apply2 f a b ≠ .error := by
   cases f <;> cases a <;> cases b <;> simp [apply2]
 
+theorem bind_const_ne_error {o : JOut} {b : JVal} (h : o ≠ .error) : (o.bind fun _ => JOut.val b) ≠ .error := by
+  cases o <;> simp [JOut.bind] at h ⊢
+
+/-- the loop tests compare numeric variables: they do not throw -/
+theorem loop_ne_error {jenv : JEnv} (sc : Scope) (name : Bytes) (args : ExprList) (j : JsExpr)
+    (h : C04c.loopAst sc name args = some j) : eval jenv j ≠ .error := by
+  cases args with
+  | nil => simp [C04c.loopAst] at h
+  | cons a r =>
+    cases r with
+    | cons _ _ => cases a <;> simp [C04c.loopAst] at h
+    | nil =>
+      cases a with
+      | dataRef dp key acc =>
+        cases acc with
+        | cons _ _ => simp [C04c.loopAst] at h
+        | nil =>
+          simp only [C04c.loopAst] at h
+          split at h
+          · simp only [Option.map_eq_some_iff] at h
+            obtain ⟨idx, _, rfl⟩ := h
+            simp only [eval]
+            split <;> simp
+          · split at h
+            · simp only [Option.map_eq_some_iff] at h
+              obtain ⟨idx, _, rfl⟩ := h
+              simp only [eval]
+              split <;> simp
+            · cases hf : Scope.loopFrame sc.stack key with
+              | none => simp [hf] at h
+              | some f =>
+                simp only [hf, Option.bind_some, C04c.lastAst] at h
+                split at h
+                · split at h
+                  · simp only [Option.some.injEq] at h; subst h
+                    simp only [eval]
+                    split
+                    · exact bind_const_ne_error (numRes_ne_error _)
+                    · simp
+                  · cases h
+                · split at h
+                  · simp only [Option.some.injEq] at h; subst h
+                    simp only [eval]
+                    split
+                    · exact bind_const_ne_error (numRes_ne_error _)
+                    · simp
+                  · cases h
+      | _ => simp [C04c.loopAst] at h
+
 /-- PARTIAL (C04, converse at the expression level): under the environment relation, if the JavaScript
     text of an expression of the fragment THROWS, the specification gives the expression no value. -/
 theorem expr_no_throw (sc : Scope) (env : SEnv) (jenv : JEnv) (hrel : EnvRel sc env jenv) :
@@ -392,7 +441,7 @@ theorem expr_no_throw (sc : Scope) (env : SEnv) (jenv : JEnv) (hrel : EnvRel sc 
         have : (key == Spec.Eval.sIj) = false := by simpa [C04c.sIj, Spec.Eval.sIj] using hij1
         simp [Spec.Eval.eval, this]
       rw [hspec]
-      have hr := hrel key hkey hdollar
+      have hr := hrel.1 key hkey hdollar
       cases hl : sc.lookup key with
       | none =>
         simp only [hl] at hr hacc
@@ -403,6 +452,8 @@ theorem expr_no_throw (sc : Scope) (env : SEnv) (jenv : JEnv) (hrel : EnvRel sc 
         exact accAst_no_throw env jenv acc (.local g) j0 (env.lookup key) kv.2 hacc (by simp [eval, hfind]) hkv hj0
   | .func p name args, j, h, hj => by
     unfold toAst at h
+    split at h
+    · exact absurd hj (loop_ne_error sc name args j h)
     cases args with
     | nil => simp at h
     | cons a r =>
@@ -607,10 +658,7 @@ theorem block_ne (p : Nat) (cmds : CmdList) (ih : CmdsNe F ae buf cmds) : BlockN
   split at h
   · rename_i rc hrc
     simp only [Option.some.injEq] at h; subst h
-    have hrel' : EnvRel sc.push env jenv := by
-      intro k hk hd
-      rw [lookup_push]
-      exact hrel k hk hd
+    have hrel' : EnvRel sc.push env jenv := envRel_push hrel
     simp only [refBlock]
     exact ih fuel sc.push rc env jenv out hrc (scOk_push hs.2) (goodBuf_push hg) hrel' hb hx
   · cases h
@@ -836,6 +884,7 @@ theorem loop_ne {sc : Scope} (hs : ScOk sc) (hg : GoodBuf sc buf) (v : Bytes) (h
     (rb : JsStmts × Scope) (hrb : toBody ae buf body (sc.pushForEach v).2 = some rb) (ihb : BodyOk F ae buf body)
     (ihn : BodyNe F ae buf body)
     (env : SEnv) (xs : List Val) (js : List JVal) (hxs : C04c.toJsList xs = some js) (fuel last : Nat)
+    (hexl : exact (js.length : Int) = true) (hlast : xs ≠ [] → xs.length = last + 1)
     (lv xl xn xi : Bytes) (hlv : lv = Scope.jsname v [] (sc.n + 1)) (hxl : xl = Scope.jsname v b!"List" (sc.n + 1))
     (hxn : xn = Scope.jsname v b!"Limit" (sc.n + 1)) (hxi : xi = Scope.jsname v b!"Index" (sc.n + 1)) :
     ∀ (rest : List Val) (i : Nat), xs.drop i = rest → ∀ (k : Nat) (e : JEnv) (out : Bytes),
@@ -910,9 +959,10 @@ theorem loop_ne {sc : Scope} (hs : ScOk sc) (hg : GoodBuf sc buf) (v : Bytes) (h
         exact this
       have hrel_a : EnvRel (sc.pushForEach v).2
           { (env.bind v item) with loops := (v, i, last) :: env.loops } (setLocal e lv (js.getD i .undefined)) := by
-        have := C04c.envRel_foreach sc env e (bounded_shape hs.2) v hv item _ hrel hjitem
+        have hne : xs ≠ [] := by intro e0; rw [e0] at hlt; cases hlt
         rw [hlv]
-        exact this
+        exact envRel_foreach_iter hs v hv env e hrel item _ hjitem i last js.length
+          (exact_le (by omega) (by omega) hexl) (by have := hlast hne; omega) (by rw [← hxn]; exact h2) (by rw [← hxi]; exact h3)
       have hb_a : BufIs buf (setLocal e lv (js.getD i .undefined)) out := by
         unfold BufIs
         rw [find_setLocal_ne e lv buf _ (by rw [hlv]; exact (nb _ (Or.inl rfl)).symm)]
@@ -1011,7 +1061,8 @@ theorem range_loop_ne {sc : Scope} (hs : ScOk sc) (hg : GoodBuf sc buf) (v : Byt
     (lv xn xs xi : Bytes) (hlv : lv = Scope.jsname v [] (sc.n + 1)) (hxn : xn = Scope.jsname v b!"Limit" (sc.n + 1))
     (hxs : xs = Scope.jsname v b!"Step" (sc.n + 1)) (hxi : xi = Scope.jsname v b!"Index" (sc.n + 1)) :
     ∀ (k : Nat) (a : Int) (idx : Nat) (e : JEnv) (out : Bytes),
-      exact a = true → EnvRel sc env e → BufIs buf e out →
+      exact a = true → exact (idx : Int) = true → (a < l → idx + (rangeItems a l s).length = last + 1) →
+      EnvRel sc env e → BufIs buf e out →
       e.locals.find? (·.1 == xn) = some (xn, .num l) →
       e.locals.find? (·.1 == xs) = some (xs, .num s) →
       e.locals.find? (·.1 == xi) = some (xi, .num idx) →
@@ -1037,9 +1088,9 @@ theorem range_loop_ne {sc : Scope} (hs : ScOk sc) (hg : GoodBuf sc buf) (v : Byt
   obtain ⟨hs1, _, hn1⟩ := scOk_pushForRange hs v hv
   intro k
   induction k with
-  | zero => intro a idx e out _ _ _ _ _ _ _ hx; simp [execLoopStep] at hx
+  | zero => intro a idx e out _ _ _ _ _ _ _ _ _ hx; simp [execLoopStep] at hx
   | succ k ih =>
-    intro a idx e out hexa hrel hb h2 hst hix h3 hx
+    intro a idx e out hexa hexi hlen hrel hb h2 hst hix h3 hx
     unfold execLoopStep at hx
     rcases withVal_error hx with hc | ⟨c, hc, hx⟩
     · rw [cond_lt h3 h2] at hc; cases hc
@@ -1049,10 +1100,26 @@ theorem range_loop_ne {sc : Scope} (hs : ScOk sc) (hg : GoodBuf sc buf) (v : Byt
     by_cases hlt : a < l
     · have : decide (a < l) = true := by simpa using hlt
       simp only [this, toBoolean, if_true] at hx
+      have hitems := rangeItems_step a l s hspos hlt
+      have hlen' := hlen hlt
+      rw [hitems, List.length_cons] at hlen'
+      have hdec : decide (l ≤ a + s) = (idx == last) := by
+        by_cases hnx : a + s < l
+        · have h1 := rangeItems_step (a + s) l s hspos hnx
+          rw [h1, List.length_cons] at hlen'
+          have e1 : decide (l ≤ a + s) = false := by simp; omega
+          have e2 : (idx == last) = false := by simp; omega
+          rw [e1, e2]
+        · have h1 := rangeItems_done (a + s) l s hspos hnx
+          rw [h1, List.length_nil] at hlen'
+          have e1 : decide (l ≤ a + s) = true := by simp; omega
+          have e2 : (idx == last) = true := by simp; omega
+          rw [e1, e2]
       have hrel_a : EnvRel (sc.pushForRange v).2
           { (env.bind v (.int a)) with loops := (v, idx, last) :: env.loops } e :=
-        envRel_forrange sc env e v a hrel hexa (by rw [hlv] at h3; exact h3) _
-      rw [rangeItems_step a l s hspos hlt]
+        envRel_forrange sc env e v hv a s l idx last hrel hexa hexi (by rw [← hlv]; exact h3) (by rw [← hxs]; exact hst)
+          (by rw [← hxn]; exact h2) (by rw [← hxi]; exact hix) hdec
+      rw [hitems]
       simp only [Spec.Eval.loopSpec]
       rcases sres_bind_error hx with hbody | ⟨eb, hbody, hx⟩
       · exact out_bind_not_val (ihn fuel _ rb _ _ out hrb hs1 (goodBuf_pushForRange hg v hv) hrel_a hb hbody)
@@ -1086,9 +1153,11 @@ theorem range_loop_ne {sc : Scope} (hs : ScOk sc) (hg : GoodBuf sc buf) (v : Byt
         rcases withVal_error hx with hx | ⟨r2, hr2, hx⟩
         · simp only [incr] at hx; exact absurd hx (numRes_ne_error _)
         simp only [incr] at hr2
-        obtain ⟨_, rfl⟩ := C04c.numRes_val hr2
+        obtain ⟨hexi', rfl⟩ := C04c.numRes_val hr2
         have hcast : ((idx : Int) + 1) = ((idx + 1 : Nat) : Int) := by omega
-        rw [hcast] at hx
+        rw [hcast] at hx hexi'
+        have hlen2 : a + s < l → (idx + 1) + (rangeItems (a + s) l s).length = last + 1 := by
+          intro _; omega
         have hk_c : Keeps buf sc.n eb (setLocal eb lv (.num (a + s))) := by
           rw [hlv]; exact keeps_setNew buf sc.n eb hv u0 (Nat.lt_succ_self _) _
         have hk_d : Keeps buf sc.n (setLocal eb lv (.num (a + s)))
@@ -1112,7 +1181,7 @@ theorem range_loop_ne {sc : Scope} (hs : ScOk sc) (hg : GoodBuf sc buf) (v : Byt
           rw [find_setLocal_ne _ xi lv _ ne_lv_xi.symm]; exact find_setLocal_eq _ _ _
         rw [hti]
         simp only [Spec.Eval.Out.bind]
-        exact out_bind_not_val (ih (a + s) (idx + 1) _ (out ++ ti) hexa' hrel_c hb_c h2c hsc (find_setLocal_eq _ _ _) h3c hx)
+        exact out_bind_not_val (ih (a + s) (idx + 1) _ (out ++ ti) hexa' hexi' hlen2 hrel_c hb_c h2c hsc (find_setLocal_eq _ _ _) h3c hx)
     · have : decide (a < l) = false := by simpa using hlt
       simp only [this, toBoolean, Bool.false_eq_true, if_false] at hx
       cases hx
@@ -1252,7 +1321,8 @@ theorem range_ne (p : Nat) (v : Bytes) (list : Expr) (body : Block) (ihb : BodyO
       find_setLocal_ne _ _ buf _ (nb _ uS).symm, find_setLocal_ne _ _ buf _ (nb _ uN).symm]
     exact hb
   have hne := range_loop_ne F ae buf hs hg v hv body rbv hrb ihb ihn env lim c hpos fuel
-    ((rangeItems a lim c).length - 1) _ _ _ _ rfl rfl rfl rfl fuel a 0 _ out hexa hrel4 hb4 fN fS (find_setLocal_eq _ _ _) fV h3
+    ((rangeItems a lim c).length - 1) _ _ _ _ rfl rfl rfl rfl fuel a 0 _ out hexa (by decide)
+    (fun hlt => by rw [rangeItems_step a lim c hpos hlt]; simp) hrel4 hb4 fN fS (find_setLocal_eq _ _ _) fV h3
   have hev : Spec.Eval.eval env (.func pf b!"range" args) = .val (.list (rangeItems a lim c)) := by
     rw [range_eval env pf args l a lim c hl hvinit hvlim (by rw [hinc]; simp [Spec.Eval.eval]), rangeSpec_val a lim c hpos]
   rw [hev]
@@ -1318,14 +1388,15 @@ theorem forc_none_ne (p : Nat) (v : Bytes) (list : Expr) (body : Block) (ihb : B
     obtain ⟨lv, hlv, hxv⟩ := out_bind_val hxv
     cases lv <;> simp at hxv
     exact hno _ hlv
-  obtain ⟨xs, js, hev, hxs, _, _, _, he2, _, _⟩ := foreach_core F ae buf hs hg v hv list j hj body rbv hrb ihb env jenv out
+  obtain ⟨xs, js, hev, hxs, hexl, _, _, _, he2, _, _⟩ := foreach_core F ae buf hs hg v hv list j hj body rbv hrb ihb env jenv out
     hrel hb fuel _ _ _ _ rfl rfl rfl rfl e1 e2 h1 h2
   rcases sres_bind_error hx with h3 | ⟨e3, _, hx⟩
   case inr => cases hx
   simp only [execStmt] at h3
   rw [he2] at h3
   obtain ⟨r3, b3, _, f1, f2, f3⟩ := foreach_e3 buf hs hg v hv env jenv out hrel hb js _ _ _ rfl rfl rfl _ rfl
-  have hne := loop_ne F ae buf hs hg v hv body rbv hrb ihb ihn env xs js hxs fuel (xs.length - 1) _ _ _ _ rfl rfl rfl rfl
+  have hne := loop_ne F ae buf hs hg v hv body rbv hrb ihb ihn env xs js hxs fuel (xs.length - 1) hexl
+      (fun hne => by have := List.length_pos_iff.mpr hne; omega) _ _ _ _ rfl rfl rfl rfl
     xs 0 List.drop_zero fuel _ out r3 b3 f1 f2 f3 h3
   rw [hev]
   simp only [Spec.Eval.Out.bind]
@@ -1350,7 +1421,7 @@ theorem forc_some_ne (p : Nat) (v : Bytes) (list : Expr) (body ie : Block) (ihb 
     obtain ⟨lv, hlv, hxv⟩ := out_bind_val hxv
     cases lv <;> simp at hxv
     exact hno _ hlv
-  obtain ⟨xs, js, hev, hxs, hrel2, hb2, _, he2, hfn, _⟩ := foreach_core F ae buf hs hg v hv list j hj body rbv hrb ihb
+  obtain ⟨xs, js, hev, hxs, hexl, hrel2, hb2, _, he2, hfn, _⟩ := foreach_core F ae buf hs hg v hv list j hj body rbv hrb ihb
     env jenv out hrel hb fuel _ _ _ _ rfl rfl rfl rfl e1 e2 h1 h2
   have hlen := C04c.toJsList_length xs js hxs
   have hst : rbv.2.pop.stack = sc.stack := by
@@ -1381,7 +1452,8 @@ theorem forc_some_ne (p : Nat) (v : Bytes) (list : Expr) (body ie : Block) (ihb 
     simp only [execStmt] at h4
     rw [he2] at h4
     obtain ⟨r3, b3, _, f1, f2, f3⟩ := foreach_e3 buf hs hg v hv env jenv out hrel hb js _ _ _ rfl rfl rfl _ rfl
-    have hne := loop_ne F ae buf hs hg v hv body rbv hrb ihb ihn env xs js hxs fuel (xs.length - 1) _ _ _ _ rfl rfl rfl rfl
+    have hne := loop_ne F ae buf hs hg v hv body rbv hrb ihb ihn env xs js hxs fuel (xs.length - 1) hexl
+      (fun hne => by have := List.length_pos_iff.mpr hne; omega) _ _ _ _ rfl rfl rfl rfl
       xs 0 List.drop_zero fuel _ out r3 b3 f1 f2 f3 h4
     cases xs with
     | nil => simp only [List.length_nil] at hlen; omega
